@@ -242,6 +242,7 @@ class GradMonitor:
         self.log = contracts.ContractLog()
         self.events = []
         self.expect_outside = False
+        self.top_id = None
         self.judge_errors = []
         self.fallback = {}            # id(object) -> logd of an identical twin, used only when the object's own logd raises
         self._stack = None
@@ -266,7 +267,9 @@ class GradMonitor:
             return None
         self.enabled = False          # the oracle's own logd calls must never be observed as workload
         try:
-            ev = judge_call(obj, args, kwargs, result, self.expect_outside, self.fallback.get(id(obj)))
+            # the call site's "this point is outside the support" refers to the object it called, not to the objects
+            # that object consults internally (their own logd may be -inf for other reasons, e.g. an underflowing pdf)
+            ev = judge_call(obj, args, kwargs, result, self.expect_outside and id(obj) == self.top_id, self.fallback.get(id(obj)))
         except Exception as e:  # noqa  - a harness problem, never the library's
             import traceback
             self.judge_errors.append("".join(traceback.format_exception(type(e), e, e.__traceback__))[-600:])
@@ -295,9 +298,9 @@ class Probe:
         if extra:
             cfg.update(extra)
         n0 = len(mon.events)
-        mon.expect_outside = outside
+        mon.expect_outside, mon.top_id = outside, id(obj)
         kind, val = core.outcome(obj.gradient, *args, **kwargs)
-        mon.expect_outside = False
+        mon.expect_outside, mon.top_id = False, None
         evs = mon.events[n0:]
         top = evs[-1] if (kind == "value" and evs and evs[-1].get("obj_id") == id(obj)) else None
         ctx.count("gradient_calls_made")
